@@ -135,3 +135,80 @@ def run_session(chunks, close_stdin=True, timeout=10.0, delay=0.0, binary=None, 
     return {"stdout": bytes(out), "stderr": bytes(err)[-2000:].decode("utf-8", "replace"), "messages": msgs,
             "problems": problems, "rc": rc, "wall": time.time() - t0, "exit_latency": time.time() - t_written,
             "timed_out": timed_out}
+
+
+def run_session_wait(main_chunk, end_chunk, want_ids, wait=10.0, read_after=None, timeout=30.0, binary=None, workers="4"):
+    """Write `main_chunk`, optionally keep the server's stdout unread for `read_after` seconds, then read and wait
+    (at most `wait` seconds, nothing more is sent meanwhile) until a response for every id of `want_ids` has arrived;
+    only then write `end_chunk` (shutdown / exit) and close stdin.  `missing_before_end` lists the ids that were
+    not answered before the end chunk was sent: a server that answers them only after further input has held them back."""
+    env = dict(os.environ)
+    env["RUST_BACKTRACE"] = "0"
+    env["RUST_LIB_BACKTRACE"] = "0"
+    if workers:
+        env.setdefault("TOKIO_WORKER_THREADS", workers)
+    p = subprocess.Popen([binary or BINARY], stdin=subprocess.PIPE, stdout=subprocess.PIPE, stderr=subprocess.PIPE, env=env)
+    out = bytearray()
+    err = bytearray()
+    lock = threading.Lock()
+    go = threading.Event()
+    if read_after is None:
+        go.set()
+
+    def rd(stream, buf):
+        if stream is p.stdout:
+            go.wait()
+        while True:
+            b = stream.read1(65536) if hasattr(stream, "read1") else stream.read(65536)
+            if not b:
+                break
+            with lock:
+                buf.extend(b)
+
+    t1 = threading.Thread(target=rd, args=(p.stdout, out), daemon=True)
+    t2 = threading.Thread(target=rd, args=(p.stderr, err), daemon=True)
+    t1.start(); t2.start()
+    t0 = time.time()
+
+    def wr():
+        try:
+            p.stdin.write(main_chunk)
+            p.stdin.flush()
+        except (BrokenPipeError, OSError):
+            pass
+
+    tw = threading.Thread(target=wr, daemon=True)
+    tw.start()
+    if read_after is not None:
+        time.sleep(read_after)
+        go.set()
+    tw.join(timeout)
+    want = set(want_ids)
+    deadline = time.time() + wait
+    seen = set()
+    while time.time() < deadline:
+        with lock:
+            snap = bytes(out)
+        msgs, _ = parse_frames(snap)
+        seen = {m.get("id") for m in msgs if "id" in m and "method" not in m}
+        if want <= seen:
+            break
+        time.sleep(0.05)
+    missing = sorted(want - seen, key=str)
+    try:
+        p.stdin.write(end_chunk)
+        p.stdin.flush()
+        p.stdin.close()
+    except (BrokenPipeError, OSError):
+        pass
+    timed_out = False
+    try:
+        rc = p.wait(timeout=timeout)
+    except subprocess.TimeoutExpired:
+        timed_out = True
+        p.kill()
+        rc = p.wait()
+    t1.join(2); t2.join(2)
+    msgs, problems = parse_frames(bytes(out))
+    return {"stdout": bytes(out), "stderr": bytes(err)[-2000:].decode("utf-8", "replace"), "messages": msgs,
+            "problems": problems, "rc": rc, "wall": time.time() - t0, "timed_out": timed_out, "missing_before_end": missing}
